@@ -128,6 +128,7 @@ type Case struct {
 	Callers []CallerObs `json:"callers"`
 	Exited  bool        `json:"exited"`
 	Stress  map[string]int `json:"stress,omitempty"` // stream stress: how the calls ended, by error kind
+	Page    []PageObs      `json:"page,omitempty"`   // stream page: tunnel reads into windows of one scratch page
 	Hang    string      `json:"hang,omitempty"`
 	Crash   string      `json:"crash,omitempty"`
 }
@@ -1875,6 +1876,174 @@ func (rn *runner) run() {
 	}
 }
 
+// PageObs is one round of the page stream.
+type PageObs struct {
+	Round   int      `json:"round"`
+	Windows [][3]int `json:"windows"` // per read: offset, len, cap of its buffer inside the page
+	Replies []int    `json:"replies"` // per read: length of the (well-formed) reply the peer sends
+	Order   []int    `json:"order"`   // the order in which the peer answers
+	Res     []string `json:"res"`     // per read: what tunnel.Read returned (n or the error kind)
+	Bad     string   `json:"bad,omitempty"`
+}
+
+const pageSentinel = 0xA5
+
+// runPage: caller memory.  Several tunnel reads are outstanding on one
+// control channel; their buffers are neighbouring windows of one scratch page
+// (filled with a sentinel), each a sub-slice with spare capacity reaching into
+// what lies behind it.  The peer answers in some order with well-formed
+// replies that are shorter than, as long as, or longer than the window --
+// also longer than len and within cap.  After every reply the whole page is
+// compared with what it may hold: the data of the reads that succeeded, in
+// their windows; anything inside [0, len) of a read that failed; the sentinel
+// everywhere else.
+func runPage(c *Case, seed uint64) {
+	c.Events, c.Frames, c.Callers = []Event{}, []SentFrame{}, []CallerObs{}
+	r := hx.NewRng(seed*48271 + uint64(c.I)*31 + 7)
+	for round := 0; round < 24 && c.Hang == ""; round++ {
+		o := PageObs{Round: round}
+		page := make([]byte, 1024)
+		for i := range page {
+			page[i] = pageSentinel
+		}
+		k := 2 + r.Intn(3)
+		off := 8 + r.Intn(8)
+		lens := []int{1, 7, 16, 64, 100}
+		for i := 0; i < k; i++ {
+			l := lens[r.Intn(len(lens))]
+			o.Windows = append(o.Windows, [3]int{off, l, 0})
+			off += l
+		}
+		for i := 0; i < k; i++ {
+			// spare capacity: reaches into the next windows (the last one into the tail of the page)
+			spare := []int{1, 8, 40, 200}[r.Intn(4)]
+			if round == 0 {
+				spare = 200
+			}
+			o.Windows[i][2] = o.Windows[i][1] + spare
+			w := o.Windows[i]
+			rl := []int{0, w[1] - 1, w[1], w[1] + 1, w[2], w[2] + 1, w[1] + 3}[r.Intn(7)]
+			if round == 0 && i == 0 {
+				rl = w[1] + 5 // the first read of the first round: longer than len, within cap
+			}
+			if rl < 0 {
+				rl = 0
+			}
+			o.Replies = append(o.Replies, rl)
+		}
+		o.Order = perm(r, k)
+		if round == 0 { // the neighbour first, the over-long reply afterwards
+			o.Order = nil
+			for i := k - 1; i >= 0; i-- {
+				o.Order = append(o.Order, i)
+			}
+		}
+		pair, err := rpcx.NewWSPair()
+		if err != nil {
+			c.Crash = "setup: " + err.Error()
+			return
+		}
+		cl := sniproxy.VerifNewClient(pair.A, nil)
+		type res struct {
+			n   int
+			err error
+		}
+		results := make([]chan res, k)
+		for i := 0; i < k; i++ {
+			results[i] = make(chan res, 1)
+			w := o.Windows[i]
+			buf := page[w[0] : w[0]+w[1] : w[0]+w[2]]
+			go func(i int) {
+				n, err := cl.Tunnel(uint64(100 + i)).Read(buf)
+				results[i] <- res{n, err}
+			}(i)
+		}
+		// the peer: collects the k requests (session = 100+i), then answers in order
+		ids := map[int]uint64{}
+		deadline := time.Now().Add(waitBound)
+		for len(ids) < k && c.Hang == "" {
+			pair.B.SetReadDeadline(deadline)
+			mt, data, err := pair.B.ReadMessage()
+			if err != nil {
+				c.Hang = "page: the read requests did not reach the peer"
+				break
+			}
+			if mt == websocket.BinaryMessage && len(data) >= 17 && data[8] == 4 {
+				ids[int(binary.LittleEndian.Uint64(data[9:]))-100] = binary.LittleEndian.Uint64(data)
+			}
+		}
+		pair.B.SetReadDeadline(time.Time{})
+		o.Res = make([]string, k)
+		okN := make([]int, k) // -1: not answered yet, -2: failed
+		for i := range okN {
+			okN[i] = -1
+		}
+		for _, i := range o.Order {
+			if c.Hang != "" {
+				break
+			}
+			payload := make([]byte, o.Replies[i])
+			for j := range payload {
+				payload[j] = byte(0x10*(i+1) + j%13)
+			}
+			b, _ := sniproxy.VerifEncodeReply(ids[i], 4, 0, "readResponse",
+				rpcx.ToShim([]rpcx.Field{{K: "bytes", B: rpcx.SegsOf(payload)}, {K: "err", Nil: true}}))
+			pair.B.WriteMessage(websocket.BinaryMessage, b)
+			select {
+			case rr := <-results[i]:
+				if rr.err != nil {
+					okN[i] = -2
+					o.Res[i] = sniproxy.VerifCallErrKind(rr.err)
+					if len(o.Res[i]) > 40 {
+						o.Res[i] = o.Res[i][:40]
+					}
+				} else {
+					okN[i] = rr.n
+					o.Res[i] = strconv.Itoa(rr.n)
+				}
+			case <-time.After(waitBound):
+				c.Hang = "page: a read did not return after its reply"
+			}
+			// what may the page hold now?
+			want := make([]int, len(page)) // -1: anything; else the byte
+			for j := range want {
+				want[j] = pageSentinel
+			}
+			for q := 0; q < k; q++ {
+				w := o.Windows[q]
+				switch {
+				case okN[q] == -2:
+					for j := 0; j < w[1]; j++ {
+						want[w[0]+j] = -1
+					}
+				case okN[q] >= 0:
+					for j := 0; j < okN[q] && j < w[1]; j++ {
+						want[w[0]+j] = int(byte(0x10*(q+1) + j%13))
+					}
+				}
+			}
+			for j := range page {
+				if want[j] >= 0 && int(page[j]) != want[j] && o.Bad == "" {
+					owner := "the sentinel area"
+					for q := 0; q < k; q++ {
+						w := o.Windows[q]
+						if j >= w[0] && j < w[0]+w[1] {
+							owner = fmt.Sprintf("the buffer of read %d (which %s)", q,
+								map[bool]string{true: "had completed", false: "is still outstanding"}[okN[q] != -1])
+						}
+					}
+					o.Bad = fmt.Sprintf("after the reply of %d bytes to read %d (buffer len %d, cap %d; Read returned %s) "+
+						"the byte at page offset %d, in %s, is %#x instead of %#x",
+						o.Replies[i], i, o.Windows[i][1], o.Windows[i][2], o.Res[i], j, owner, page[j], want[j])
+				}
+			}
+		}
+		pair.Close()
+		c.Page = append(c.Page, o)
+	}
+	c.Exited = true
+}
+
 // runStress: 64 goroutines call Hello in a loop against a peer that answers
 // everything, while the transport is shut down under them (150 rounds).  Every
 // call returns -- its reply, errAlreadyShutdown, or the end of the transport
@@ -1952,6 +2121,10 @@ func runHistory(c *Case, tap *rpcx.LogTap) {
 		runStress(c)
 		return
 	}
+	if c.Stream == "page" {
+		runPage(c, 1)
+		return
+	}
 	tap.Reset()
 	rn := &runner{c: c, tap: tap, results: make(chan callRes, 4096),
 		callers: map[int]*caller{}, pending: map[uint64]int{}, stray: map[int]bool{}}
@@ -1991,10 +2164,13 @@ func main() {
 		*n, *nstress = len(scripted), 0
 	}
 	nhist := *n
-	*n += *nstress
+	*n += 2 * *nstress // (every stress case is followed by a page case)
 	gen := func(i int) Case {
 		if scripted != nil {
 			return Case{I: i, Stream: scripted[i].Stream, Steps: scripted[i].Steps}
+		}
+		if i >= nhist && (i-nhist)%2 == 1 {
+			return Case{I: i, Stream: "page", Steps: []Step{}}
 		}
 		if i >= nhist {
 			return Case{I: i, Stream: "stress", Steps: []Step{}}
